@@ -1,11 +1,12 @@
 """C02: the NL reader is total, memory-safe and reports only header-consistent data."""
-from . import build, run
+import os, shutil
+from . import build, run, fuzz
 
 RULE = ("seeded structure-aware generator of valid NL models (all operators, functions, string args, suffixes, defined variables, "
         "complementarity, K/k segments, shuffled segment order) encoded by our own text / binary-native / binary-byte-swapped encoders, "
         "padded to page-multiple file sizes -1/0/+1, x 0-3 hostile mutations (truncation, header fields, counts/indices/opcodes replaced "
         "by boundary and huge values, NULs, duplicated/deleted/truncated segments); each input is read 6 times: ReadNLString and ReadNLFile x "
-        "{flags 0, READ_BOUNDS_FIRST} into the recording checker, NullNLHandler, and the mp::Problem builder; ASan + full UBSan. "
+        "{flags 0, READ_BOUNDS_FIRST} into the recording checker, NullNLHandler, and the mp::Problem builder; ASan + full UBSan; then a coverage-guided libFuzzer stage (clang, ASan+UBSan, same checker, memory path) seeded with 800 generated inputs. "
         "non-trivial = the reader delivered >=5 notifications after the header; distinct = distinct (format, mutation, outcome pair, "
         "operator-set hash) signatures")
 
@@ -14,8 +15,12 @@ def builds():
     return dict(full=build.build('asanfull', 'nlread_mon', ['nlread_mon.cc']))
 
 
+def fuzz_build():
+    return build.build('fuzz', 'fuzz_nl', ['fuzz_nl.cc'], link_flags=['-fsanitize=fuzzer'])
+
+
 def prebuild():
-    builds()
+    builds(); fuzz_build()
 
 
 def main(tier, seed):
@@ -55,6 +60,13 @@ def main(tier, seed):
         ctx.violation('%s:%s' % (kind, top), 'NL reader died on case %d: %s in %s' % (case, kind, top), dict(cmd=cmd, report=exc))
 
     run.run_sharded(exe, ['--dir', wd], ctx.n(150000, 6000000), on_line, on_death, seed, timeout_per_case=10)
+    # ---- coverage-guided tier (clang libFuzzer + ASan/UBSan) on the memory path with the same recording checker
+    fexe = fuzz_build()
+    corpus = os.path.join(wd, 'corpus0')
+    shutil.rmtree(corpus, ignore_errors=True); os.makedirs(corpus)
+    run.run_sharded(exe, ['--dir', wd, '--dump-dir', corpus], 800, lambda j: None, lambda *a: None, seed + 77, timeout_per_case=10, shards=4)
+    fuzz.run_fuzzers(ctx, fexe, corpus, ctx.n(1500000, 150000000), seed, wd, max_len=8000, what='mp::ReadNLString')
+    shutil.rmtree(corpus, ignore_errors=True)
     ctx.extras.update(outcomes_string_path={'completed': outc.get('0', 0), 'ReadError': outc.get('1', 0), 'BinaryReadError': outc.get('2', 0),
                                             'other': sum(v for k, v in outc.items() if k not in '012')},
                       formats=fmts, mutation_kinds=hows, operators_seen=sorted(ops), n_operators_seen=len(ops),
